@@ -3,11 +3,23 @@
 use crate::ctx::Ctx;
 
 pub mod c01;
+pub mod c02;
+pub mod c09;
+pub mod c05;
+pub mod c06;
+pub mod c12;
+pub mod c13;
 
 /// returns false when the property id is unknown
 pub fn run(ctx: &mut Ctx, replay: Option<&str>) -> bool {
     match ctx.prop.clone().as_str() {
         "C01" => c01::run(ctx, replay),
+        "C02" => c02::run(ctx, replay),
+        "C09" => c09::run(ctx, replay),
+        "C05" => c05::run(ctx, replay),
+        "C06" => c06::run(ctx, replay),
+        "C12" => c12::run(ctx, replay),
+        "C13" => c13::run(ctx, replay),
         _ => return false,
     }
     true
